@@ -436,8 +436,96 @@ def classify(clause, section):
     return "unclassified"
 
 
+FILE_NAMES = ["A", "a", "", "UNKNOWN", "B"]
+
+
+def file_cases(tier):
+    """~C name lists of length 0..3 (quick) / 0..4 (thorough) x 0..2 data columns more than declared curves."""
+    import itertools
+    out = []
+    for n in range(0, 4 if tier == "quick" else 5):
+        for names in itertools.product(FILE_NAMES, repeat=n):
+            for surplus in (0, 1, 2):
+                if n + surplus == 0:
+                    continue
+                out.append((list(names), surplus))
+    return out
+
+
+def check_file_case(names, surplus, case, engine):
+    """After reading a file: the invariants on las.curves (blank and duplicated names among the declared curves and the
+    unnamed curves made for surplus data columns)."""
+    ncol = len(names) + surplus
+    text = ("~V\nVERS. 2.0 : v\nWRAP. NO : w\n~W\nSTRT.M 1 : s\nSTOP.M 2 : s\nSTEP.M 1 : s\nNULL. -999.25 : n\n~C\n"
+            + "".join("%s.U : curve %d\n" % (nm, j) for j, nm in enumerate(names))
+            + "~A\n" + "".join(" ".join("%d.5" % (10 * i + j) for j in range(ncol)) + "\n" for i in range(2)))
+    fn = {"preserve": lambda x: x, "upper": str.upper, "lower": str.lower}[case]
+    witness = {"file_case": [names, surplus, case, engine], "text": text}
+    try:
+        las = lasio.read(text, mnemonic_case=case, engine=engine)
+    except Exception as e:
+        return [{"clause": "file-read-raises", "sig": "file", "witness": witness, "expected": "a successful read", "observed": repr(e)[:200],
+                 "size": ncol, "repro": "lasio.read(text, mnemonic_case=%r, engine=%r)" % (case, engine)}]
+    originals = [fn(n) for n in names] + [""] * surplus
+    ci = case != "preserve"
+    bad = invariants(las.curves, las, originals, ci)
+    # numbering by reading order (I4 over the whole section), as in I6
+    if not bad:
+        want = []
+        for p_, n in enumerate(originals):
+            u = useful(n)
+            grp = [q for q, m in enumerate(originals) if cmp(ci, useful(m), u)]
+            want.append(u if len(grp) == 1 else "%s:%d" % (u, grp.index(p_) + 1))
+        got = [i.mnemonic for i in las.curves]
+        if got != want:
+            bad.append(("I4-numbering-after-read", want, got))
+    # the same name list as extra items of ~Version / ~Well / ~Parameter: invariants after reading, and write() emits the
+    # originals, so a second read gives the same originals and session names (duplicates and blanks survive the trip)
+    if not bad and surplus == 0 and names and all(":" not in n for n in names):
+        for secname, title, head in (("Version", "~V", 2), ("Well", "~W", 4), ("Parameter", "~P", 0)):
+            lines = "".join("%s.U v%d : item %d\n" % (nm, j, j) for j, nm in enumerate(names))
+            t2 = ("~V\nVERS. 2.0 : v\nWRAP. NO : w\n" + (lines if secname == "Version" else "")
+                  + "~W\nSTRT.M 1 : s\nSTOP.M 2 : s\nSTEP.M 1 : s\nNULL. -999.25 : n\n" + (lines if secname == "Well" else "")
+                  + ("~P\n" + lines if secname == "Parameter" else "") + "~C\nD.M : d\n~A\n1\n2\n")
+            try:
+                l1 = lasio.read(t2, mnemonic_case=case, engine=engine)
+                sec1 = l1.sections[secname]
+                o1 = [i.original_mnemonic for i in sec1][head:]
+                if o1 != [fn(n) for n in names]:
+                    bad.append(("I5-originals-after-read:" + secname, [fn(n) for n in names], o1))
+                    break
+                b2 = invariants(sec1, l1, [i.original_mnemonic for i in sec1], ci)
+                if b2:
+                    bad.extend(b2)
+                    break
+                buf = io.StringIO()
+                l1.write(buf, version=2.0)
+                l2 = lasio.read(buf.getvalue(), mnemonic_case=case, engine=engine)
+                sec2 = l2.sections[secname]
+                if [i.original_mnemonic for i in sec2] != [i.original_mnemonic for i in sec1]:
+                    bad.append(("I6-originals-roundtrip:" + secname, [i.original_mnemonic for i in sec1], [i.original_mnemonic for i in sec2]))
+                    break
+                if [i.mnemonic for i in sec2] != [i.mnemonic for i in sec1]:
+                    bad.append(("I6-session-roundtrip:" + secname, [i.mnemonic for i in sec1], [i.mnemonic for i in sec2]))
+                    break
+            except Exception as e:
+                bad.append(("file-roundtrip-raises:" + secname, "read, write and read again succeed", "%s: %s" % (type(e).__name__, str(e)[:160])))
+                break
+            witness = dict(witness, text2=t2)
+    out = []
+    for c, e, o in bad:
+        v = viol(c, "file", [], ["file"], e, o, las.curves)
+        v["witness"] = witness
+        v["size"] = ncol
+        out.append(v)
+    return out
+
+
 def units(tier, seed):
     us = []
+    cases = file_cases(tier)
+    for k in range(0, len(cases), 60):
+        us.append({"kind": "files", "tier": tier, "range": [k, min(k + 60, len(cases))]})
     for root in ROOTS:
         section, las, factory = make_root(root)
         for op in alphabet(len(section), [i.mnemonic for i in section]):
@@ -446,6 +534,25 @@ def units(tier, seed):
 
 
 def run_unit(unit):
+    if unit.get("kind") == "files":
+        res = {"evals": 0, "nontrivial": set(), "outcomes": {}, "violations": [], "samples": [],
+               "states": set(), "transitions": 0, "traces": 0, "max_depth": 0, "extra": {}}
+        cases = file_cases(unit["tier"])[unit["range"][0]:unit["range"][1]]
+        for names, surplus in cases:
+            for case in ("upper", "preserve", "lower"):
+                for engine in ("numpy", "normal"):
+                    vio = check_file_case(names, surplus, case, engine)
+                    res["evals"] += 1
+                    res["transitions"] += 1
+                    oc = "file:" + ("violation" if vio else "ok")
+                    res["outcomes"][oc] = res["outcomes"].get(oc, 0) + 1
+                    res["violations"].extend(vio)
+                    if surplus or len(set(n.upper() for n in names)) < len(names) or "" in names:
+                        res["nontrivial"].add(hashlib.blake2b(repr((names, surplus, case, engine)).encode(), digest_size=8).hexdigest())
+        if cases:
+            res["samples"].append({"file_case": [cases[0][0], cases[0][1]]})
+        res["violations"] = e1.compress(res["violations"])
+        return res
     root, tier = unit["root"], unit["tier"]
     depth = DEPTH[tier]
     res = {"evals": 0, "nontrivial": set(), "outcomes": {}, "violations": [], "samples": [],
@@ -495,5 +602,7 @@ def run_unit(unit):
 
 
 def replay(witness):
+    if "file_case" in witness:
+        return check_file_case(*witness["file_case"])
     vio, _ = step_check(witness["root"], witness["history"], witness["op"])
     return vio
